@@ -232,10 +232,13 @@ func FieldAccessesIn(fn *ssa.Function, typ, field string) []FieldAccess {
 					out = append(out, FieldAccess{s, false, "load"})
 				}
 			case ssa.CallInstruction:
-				for _, a := range CallArgs(x) {
+				for k, a := range CallArgs(x) {
 					if IsFieldAddr(a, typ, field) {
 						n := CalleeName(x)
 						w := !(strings.Contains(n, ".Load") || strings.HasSuffix(n, "RLock") || strings.HasSuffix(n, "RUnlock"))
+						if w && paramOnlyRead(x.Common().StaticCallee(), k) {
+							w = false // a helper of the module that only loads through the pointer it is given
+						}
 						out = append(out, FieldAccess{s, w, n})
 					}
 				}
